@@ -28,8 +28,9 @@ func (a pipeAddr) String() string  { return string(a) }
 
 // Stream is one end of an in-memory byte stream (net.Conn).
 type Stream struct {
-	name string
-	peer *Stream
+	name  string
+	moved string
+	peer  *Stream
 
 	mu       sync.Mutex
 	buf      []byte // bytes waiting to be read at this end
@@ -275,14 +276,24 @@ func (s *Stream) Snapshot() (reads, writes []CallRecord, received, moved []byte)
 func (s *Stream) LocalAddr() net.Addr { return pipeAddr(s.name) }
 
 // RemoteAddr implements net.Conn.
-func (s *Stream) RemoteAddr() net.Addr { return pipeAddr(s.peer.name) }
+func (s *Stream) RemoteAddr() net.Addr {
+	if s.moved != "" {
+		return pipeAddr(s.moved)
+	}
+	return pipeAddr(s.peer.name)
+}
+
+// MoveRemote makes RemoteAddr report another address from now on (a peer that changed its
+// address, as after a NAT re-binding or a candidate switch).
+func (s *Stream) MoveRemote(name string) { s.moved = name }
 
 // ---------------------------------------------------------------------------
 
 // Packet is one end of an in-memory datagram pipe (net.PacketConn).
 type Packet struct {
-	name string
-	peer *Packet
+	name  string
+	moved string
+	peer  *Packet
 
 	mu       sync.Mutex
 	queue    [][]byte
@@ -514,4 +525,12 @@ func (s *Packet) Read(b []byte) (int, error) {
 
 func (s *Packet) Write(b []byte) (int, error) { return s.WriteTo(b, nil) }
 
-func (s *Packet) RemoteAddr() net.Addr { return pipeAddr(s.peer.name) }
+func (s *Packet) RemoteAddr() net.Addr {
+	if s.moved != "" {
+		return pipeAddr(s.moved)
+	}
+	return pipeAddr(s.peer.name)
+}
+
+// MoveRemote makes RemoteAddr report another address from now on.
+func (s *Packet) MoveRemote(name string) { s.moved = name }
